@@ -101,10 +101,28 @@ def error_exits(b, c, depth=0):
     ok_e, err_e = result_edges(b, c)
     prim = [e for e in err_e if not any(e2 != e and b.edge_guards(e2, e[0]) for e2 in err_e)]
     out = []
+    if not err_e and not c.node["dest"]["p"] and not strip_generics(c.node.get("callee") or "").endswith("::from_residual"):
+        # the result is not tested at all but handed on as the function's own result (`helper()` / `x.sync_all()` in tail
+        # position, possibly through an inlined helper's return place): the failure is returned as it is
+        cur, hops = {c.node["dest"]["l"]}, 0
+        while hops < 6 and 0 not in cur:
+            hops += 1
+            nxt = set()
+            for site, st in b.assigns():
+                if st["rv"]["k"] == "use" and op_local(st["rv"]["op"]) in cur and not st["place"]["p"]:
+                    nxt.add(st["place"]["l"])
+            if not nxt - cur:
+                break
+            cur |= nxt
+        if 0 in cur and c.node.get("target") is not None:
+            out.append(((c.bb, c.node["target"]), list(b.return_blocks())))
+            return out
     for e in prim:
         exit_blocks = []
         for blk in b.live_blocks:
-            if not b.edge_guards(e, blk):
+            # the edge's own target counts even when other failing paths join it there (two `?` sharing one
+            # from_residual block after path splitting)
+            if blk != e[1] and not b.edge_guards(e, blk):
                 continue
             t = b.term(blk)
             if t["k"] == "call" and strip_generics(t.get("callee") or "").endswith("::from_residual") and t["dest"]["l"] == 0:
